@@ -22,7 +22,8 @@ from .. import tool
 
 PROP = "C14"
 LEVEL = "fault_enumeration"
-RUNS = {"quick": 170, "thorough": 9000}
+RUNS = {"quick": 190, "thorough": 9000}
+SELFCHECK_N = 4
 TIME_CAP = {"quick": 400, "thorough": 1500}
 CHUNK = 1          # runs per worker task (cost-aware: keeps the time cap responsive)
 RULE = ("AKAI volumes of 2-6 files and Roland performances of 2-5 samples (names pairwise at Hamming distance >= 2, no L/R pairs); one "
@@ -69,11 +70,12 @@ def _enum_plan(tier: str):
     """[(fmt, entry index, byte offsets, part)] - each item is one run evaluating all 256 values at each listed offset."""
     plan = []
     if tier == "quick":
-        for e in range(3):
-            plan.append(("akai", e, [16]))
-        plan.append(("akai", 1, [20]))
-        plan.append(("akai", 1, [21]))
-        plan.append(("akai", 0, [17]))
+        for part in range(4):
+            for e in range(3):
+                plan.append(("akai", e, [16], part))
+            plan.append(("akai", 1, [20], part))
+            plan.append(("akai", 1, [21], part))
+            plan.append(("akai", 0, [17], part))
     else:
         for e in range(3):
             for off in range(24):
@@ -106,8 +108,9 @@ def gen(rng: random.Random, tier: str, index: int) -> dict:
     if index < len(plan):
         it = plan[index]
         if it[0] == "akai":
+            vals = range(256) if len(it) < 4 else range(it[3] * 64, it[3] * 64 + 64)
             return {"fmt": "akai", "model": _fixed_akai(), "vol": [0, 0], "entry": it[1], "block": 4096,
-                    "faults": [[[o, v]] for o in it[2] for v in range(256)], "enumerated": True}
+                    "faults": [[[o, v]] for o in it[2] for v in vals], "enumerated": True}
         part = it[3]
         return {"fmt": "roland", "model": _fixed_roland(), "perf": 0, "entry": 1, "record": it[1], "block": 4096,
                 "faults": [[[o, v]] for o in it[2] for v in range(part * 32, part * 32 + 32)], "enumerated": True}
